@@ -822,7 +822,13 @@ func (m *monitors) registryInvariants(where string) {
 			m.fail("C09", 0, fmt.Sprintf("after %s: next registration id went back from %d to %d", where, prev, next))
 		}
 		m.regNext[wrk] = next
-		for id := uint64(1); id < next && id < 100; id++ {
+		first := uint64(1) // the chain's genesis numbering
+		if wrk && c.cfg.startWrk != 0 {
+			first = c.cfg.startWrk
+		} else if !wrk && c.cfg.startBcn != 0 {
+			first = c.cfg.startBcn
+		}
+		for id := first; id < next && id < 100; id++ {
 			var static string
 			var num, lowest, last, limit uint64
 			var stored []uint64
